@@ -387,6 +387,46 @@ fn run_oom(args: &[&str]) -> String {
   if from_iter != r {
     fail = Some("one-or-many-from-iter-differs-from-vec:".into());
   }
+  // iterators with other size hints: (0, Some(n)) from a filter, the adapter behind collect::<Result<_, _>>(), and
+  // hints that under- / over-report
+  {
+    struct Hint<I>(I, (usize, Option<usize>));
+    impl<I: Iterator> Iterator for Hint<I> {
+      type Item = I::Item;
+      fn next(&mut self) -> Option<I::Item> {
+        self.0.next()
+      }
+      fn size_hint(&self) -> (usize, Option<usize>) {
+        self.1
+      }
+    }
+    let src = r.as_slice().to_vec();
+    let mut variants: Vec<(&str, OneOrMany<S>)> = vec![
+      ("filter", src.iter().copied().filter(|_| true).collect()),
+      ("filter_map", src.iter().copied().filter_map(Some).collect()),
+      ("skip_while", src.iter().copied().skip_while(|_| false).collect()),
+      ("chain", src.iter().copied().chain(std::iter::empty()).collect()),
+    ];
+    if let Ok(v) = src.iter().copied().map(Ok::<S, ()>).collect::<Result<OneOrMany<S>, ()>>() {
+      variants.push(("collect::<Result<_, _>>", v));
+    } else {
+      fail = Some("one-or-many-from-iter-differs-from-vec:collect::<Result<_, _>> of Ok items fails".into());
+    }
+    for h in [(0, None), (0, Some(0)), (0, Some(1)), (1, Some(1)), (1, None), (0, Some(src.len())), (src.len(), Some(src.len()))] {
+      variants.push(("size hint", Hint(src.clone().into_iter(), h).collect()));
+    }
+    for (name, v) in variants {
+      if v != r && fail.is_none() {
+        fail = Some(format!("one-or-many-from-iter-differs-from-vec:{} gives {} for {}", name, show_oom(&v), sl(&src)));
+      }
+    }
+    let os: OrderedSet<S> = src.iter().copied().filter(|_| true).collect();
+    let os2: OrderedSet<S> = src.iter().copied().collect();
+    let os3: OrderedSet<S> = Hint(src.clone().into_iter(), (0, Some(1))).collect();
+    if (os != os2 || os != os3) && fail.is_none() {
+      fail = Some("duplicate-key:OrderedSet::from_iter depends on the iterator's size hint".into());
+    }
+  }
   if single && !matches!(r, OneOrMany::One(_)) {
     fail = Some("singleton-not-bare:OneOrMany::from(vec![x])".into());
   }
